@@ -70,6 +70,8 @@ INNER_WS = " \n\t"
 LATIN1 = "éüßñ©µÿ¡"
 BMP = "ąłΩ中文€☃�"
 ASTRAL = "\U0001f315\U0001f311\U00010348\U0001d11e"
+TRICKY = ["&amp;", "&lt;", "&gt;", "&quot;", "&apos;", "&#38;", "&#x26;", "&amp;amp;", "&amp;lt;", "&#10;", "%s", "%d", "{0}", "{}", "\\n", "\\",
+          "]]>", "<![CDATA[", "<!--", "-->", "<?", "?>", "</", "/>", "None", "null", "0", "''", '""']
 
 
 def gen_string(rng, classes=None, maxlen=12, allow_empty=True, inner_ws=True):
@@ -86,6 +88,8 @@ def gen_string(rng, classes=None, maxlen=12, allow_empty=True, inner_ws=True):
             pool = rng.choice(pools)
         if inner_ws and 0 < i < n - 1 and rng.random() < 0.12:
             out.append(rng.choice(INNER_WS))
+        elif classes is None and rng.random() < 0.06:
+            out.append(rng.choice(TRICKY))      # literal text that looks like markup, entities or format directives
         else:
             out.append(rng.choice(pool))
     return "".join(out)
@@ -255,8 +259,8 @@ def _esc_text(s, charrefs, rng):
             out.append("&lt;")
         elif ch == "&":
             out.append("&amp;")
-        elif ch == ">" and (charrefs & 1):
-            out.append("&gt;")
+        elif ch == ">" and ((charrefs & 1) or "".join(out[-2:]) == "]]"):
+            out.append("&gt;")          # ']]>' must not appear literally in character data
         elif ord(ch) > 127 and (charrefs & 2):
             out.append("&#%d;" % ord(ch) if (charrefs & 4) else "&#x%x;" % ord(ch))
         else:
